@@ -94,6 +94,36 @@ theorem accepted_means_verified (cls : Cls) (attrs : List Attr)
   rw [miCheck_ok, key_for_class] at hc
   rw [hp, hc]
 
+/-- **What sits behind a MESSAGE-INTEGRITY is ignored.**  Bytes behind the (first) MESSAGE-INTEGRITY are not covered by its HMAC;
+anybody can append attributes there.  Whatever is appended — USE-CANDIDATE, PRIORITY, further MESSAGE-INTEGRITY attributes, unknown
+attributes, a good FINGERPRINT — the component reacts exactly as to the message that ends with the MESSAGE-INTEGRITY. -/
+theorem attributes_after_mi_ignored (s : St) (src : Nat) (m : Stun) (pre post : List Attr) (st : MiSt)
+    (h : ∀ a ∈ post, a.harmless = true) :
+    react s { src := src, kind := .stun { m with attrs := pre ++ .mi st :: post } }
+      = react s { src := src, kind := .stun { m with attrs := pre ++ [.mi st] } } := by
+  have e1 : handleRequest s src ({ m with attrs := pre ++ .mi st :: post } : Stun).decoded
+          = handleRequest s src ({ m with attrs := pre ++ [.mi st] } : Stun).decoded :=
+    handleRequest_congr s src _ _ rfl (by simp [Stun.decoded, parsedUc_trailer pre post st]) rfl
+      (by simp [Stun.decoded, parsedPrio_trailer pre post st])
+  have e2 : handleResponse s src ({ m with attrs := pre ++ .mi st :: post } : Stun)
+          = handleResponse s src ({ m with attrs := pre ++ [.mi st] } : Stun) := rfl
+  simp only [react, prescan_trailer pre post st, decodeWalk_trailer _ pre post st h, e1, e2]
+
+/-- … in particular the tampering that makes a controlled agent nominate: USE-CANDIDATE (or a PRIORITY) appended behind the valid
+MESSAGE-INTEGRITY of a genuine request changes nothing. -/
+theorem appended_use_candidate_ignored (s : St) (src : Nat) (m : Stun) (n : Nat) :
+    react s { src := src, kind := .stun { m with attrs := [.mi .validLocal, .useCandidate, .priority n, .fingerprint true] } }
+      = react s { src := src, kind := .stun { m with attrs := [.mi .validLocal] } } :=
+  attributes_after_mi_ignored s src m [] [.useCandidate, .priority n, .fingerprint true] .validLocal
+    (by intro a ha; simp at ha; rcases ha with rfl | rfl | rfl <;> rfl)
+
+/-- A response is never accepted while the remote password is unknown — whatever integrity attribute it carries (the component
+could not verify it): remote user set or not, checks running or not. -/
+theorem response_before_remote_password_dropped (s : St) (src : Nat) (m : Stun)
+    (hpw : s.remotePwSet = false) (hc : m.cls = .response ∨ m.cls = .error) :
+    react s { src := src, kind := .stun m } = (s, []) := by
+  rcases hc with hc | hc <;> simp [react, hc, hpw]
+
 /-- **Whole histories.**  A history that consists only of unauthenticated datagrams (any number, any mix) leaves every state
 `s` — in particular its connectivity view — exactly as it was. (Name kept from the time when this held only for datagrams that
 carried some integrity attribute; it now covers absent MESSAGE-INTEGRITY too.) -/
@@ -237,6 +267,67 @@ theorem honest_pair_carries_datagrams (aControlling : Bool) (component addrA add
       St.addPair, sortDesc, insertDesc, connect, checkCandidates, performCheck, updatePair, react, prescan, decodeWalk, miCheck, Stun.decoded, parsedUc, parsedPrio, handleRequest,
       handleResponse, completion, findPair, St.connected, sendApp, h1, h2]
 
+/-- **Connected is stable:** no operation and no datagram whatsoever (authenticated or not) makes a connected component
+unconnected again. -/
+theorem connected_is_stable (s : St) (ops : List Op) (h : s.connected = true) : (run s ops).1.connected = true :=
+  run_active ops s h
+
+/-- **Partial: honest agents connect although first transmissions are lost.**  Two model agents (component 1, addresses 1 and 2)
+with exchanged credentials, for EVERY combination of
+* role assignment (`aControlling`) and who calls `connectToHost` first (`bFirst`),
+* whether the first agent's check already arrives before the other one starts (`gap`: the triggered-check path),
+* an additional, unreachable candidate told to A and/or to B (`deadA`, `deadB`), listed before or after the real one (`deadFirst`),
+* loss of the FIRST transmission of A's request, of B's request, of A's response, of B's response (any subset),
+the following schedule ends with both agents connected to each other: three periods, each = {everything in flight is passed on,
+both 500 ms check timers tick, the answers are passed on, all retransmission timers fire}; and whatever happens afterwards
+(`opsA`, `opsB`: any operations, any datagrams) both stay connected.
+Fairness hypothesis, explicit: only first transmissions are lost, every retransmission and every later datagram is delivered, in
+order per direction.  Missing relative to the property: arbitrary interleavings / reordering, repeated loss of the same message,
+several REACHABLE candidates per agent (one local transport is modelled), other components than 1 for this statement (the
+lossless statement above holds for every component) — explored by the harness with real timers. -/
+theorem honest_pair_connects_despite_loss_partial
+    (aControlling bFirst gap deadA deadB deadFirst lossReqA lossReqB lossRspA lossRspB : Bool) (opsA opsB : List Op) :
+    let n := (Net.periods 3 (lossyStart aControlling bFirst gap deadA deadB deadFirst 1, ⟨lossReqA, lossReqB, lossRspA, lossRspB⟩)).1
+    n.a.active = some 2 ∧ n.b.active = some 1 ∧
+    (run n.a opsA).1.connected = true ∧ (run n.b opsB).1.connected = true := by
+  have h : bothConnected (Net.periods 3 (lossyStart aControlling bFirst gap deadA deadB deadFirst 1,
+      ⟨lossReqA, lossReqB, lossRspA, lossRspB⟩)).1 = true := by
+    cases aControlling <;> cases bFirst
+    · exact lossy_ff _ _ _ _ _ _ _ _
+    · exact lossy_ft _ _ _ _ _ _ _ _
+    · exact lossy_tf _ _ _ _ _ _ _ _
+    · exact lossy_tt _ _ _ _ _ _ _ _
+  simp only [bothConnected, Bool.and_eq_true, beq_iff_eq] at h
+  refine ⟨h.1, h.2, ?_, ?_⟩
+  · exact connected_is_stable _ opsA (by simp [St.connected, h.1])
+  · exact connected_is_stable _ opsB (by simp [St.connected, h.2])
+
+/-- **Application datagrams are carried unchanged, any number of them, in order** from a component whose selected pair points at
+`addrB` to the component living there: what B's application receives is exactly the list of payloads A's application sent,
+A's state and B's connectivity view are untouched. -/
+theorem application_datagrams_carried (a b : St) (addrA addrB : Nat) (h : a.active = some addrB) (ps : List (List UInt8)) :
+    let sent := run a (ps.map .sendApp)
+    let arriving := route sent.1 addrA addrB sent.2
+    let recv := run b (arriving.map .dgram)
+    recv.2 = ps.map Out.appData ∧ sent.1 = a ∧ connView recv.1 = connView b := by
+  simp only [run_sendApp a addrB h ps, route_appSent a addrA addrB ps, List.map_map]
+  have h2 := run_nonStun b addrA ps
+  exact ⟨h2.1, trivial, h2.2⟩
+
+/-- … applied to the two honest agents after their negotiation, in both directions at once: any list `ps` sent by A arrives at B
+as `ps`, any list `qs` sent by B arrives at A as `qs`. -/
+theorem honest_pair_carries_datagram_lists (aControlling : Bool) (component addrA addrB : Nat) (hne : addrA ≠ addrB)
+    (ps qs : List (List UInt8)) :
+    let n := Net.deliver 2 (honestNet aControlling component addrA addrB)
+    let sa := run n.a (ps.map .sendApp)
+    let sb := run n.b (qs.map .sendApp)
+    (run n.b ((route sa.1 addrA addrB sa.2).map .dgram)).2 = ps.map Out.appData ∧
+    (run n.a ((route sb.1 addrB addrA sb.2).map .dgram)).2 = qs.map Out.appData := by
+  have hc := honest_pair_connects_partial aControlling component addrA addrB hne
+  simp only at hc
+  exact ⟨(application_datagrams_carried _ _ addrA addrB hc.2.2.1 ps).1,
+         (application_datagrams_carried _ _ addrB addrA hc.2.2.2.1 qs).1⟩
+
 /-! ## Non-vacuity: concrete, non-trivial instances of the hypotheses -/
 
 /-- a component in the middle of a negotiation (own check 0 in flight to peer 1, peer's request already answered) -/
@@ -268,6 +359,19 @@ example : (react (init false) { src := 8, kind := .stun { cls := .request, txid 
 -- a history mixing honest and unauthenticated operations, for `forged_traffic_erasable`
 example : ([Op.setRemoteCreds, .dgram { src := 8, kind := .stun { cls := .request, txid := 1, attrs := [] } }, .connect].filter
     fun o => !o.unauthenticated) = [.setRemoteCreds, .connect] := by decide
+-- a lossy run really loses and retransmits: with all four first transmissions lost nobody is connected after one period
+example : bothConnected (Net.periods 1 (lossyStart true false false false false false 1, ⟨true, true, true, true⟩)).1 = false := by decide
+example : ((lossyStart true false false true true true 1).a.pairs.map (·.remote), (lossyStart true false false true true true 1).b.pairs.map (·.remote)) = ([7, 2], [9, 1]) := by decide
+-- a genuine request WITHOUT USE-CANDIDATE to a controlled agent whose own check is in flight: USE-CANDIDATE appended behind the
+-- MESSAGE-INTEGRITY leaves `nominating` false, the same attribute in front of it (covered by the HMAC) sets it
+example : (react (run (init false) [.setRemoteCreds, .addRemote 1 (localPriority 1), .connect]).1
+    { src := 1, kind := .stun { cls := .request, txid := 9, attrs := [.mi .validLocal, .useCandidate], roleAttr := .controlling } }).1.pairs.map (·.nominating) = [false] := by decide
+example : (react (run (init false) [.setRemoteCreds, .addRemote 1 (localPriority 1), .connect]).1
+    { src := 1, kind := .stun { cls := .request, txid := 9, attrs := [.useCandidate, .mi .validLocal], roleAttr := .controlling } }).1.pairs.map (·.nominating) = [true] := by decide
+-- a response arriving while only the remote user is known (check 0 in flight): dropped, also with a "right" integrity code
+example : (react (run (init false) [.setRemoteUser, .addRemote 1 (localPriority 1), .connect]).1
+    { src := 1, kind := .stun { cls := .response, txid := 0, attrs := [.mi .validRemote] } }) =
+    ((run (init false) [.setRemoteUser, .addRemote 1 (localPriority 1), .connect]).1, []) := by decide
 -- role conflict hypothesis is met by the honest request of a same-role agent
 example : handleRequest (init true) 1 { cls := .request, txid := 1, attrs := [.mi .validLocal], useCandidate := true, roleAttr := .controlling }
     = (init true, [.roleConflict]) := by decide
